@@ -251,6 +251,19 @@ def spec_checks(q, gs, os_, sel_model, notes, out):
         vals = [v for n in notes for k, v in n[11] if k == sm[1]]
     elif sm == "FILE":
         vals = [n[0] for n in notes]
+    if vals is not None and gs and not counting and os_ == ["alpha"]:
+        # inside every group: the selected values sorted and distinct (the group's notes are not recomputed here)
+        rul = ("#" * 32, "=" * 24, "+" * 16, "-" * 8)
+        group = []
+        for line in (out.split("\n") if out else []) + ["#" * 32 + " end"]:
+            if line.startswith(rul):
+                if group != sorted(set(group)):
+                    probs.append(("selected values are sorted when ordered by alpha, and distinct, in every group",
+                                  "one group lists %r" % group[:8], None))
+                    break
+                group = []
+            elif line.strip():
+                group.append(line.strip())
     if vals is not None and not gs:
         distinct = sorted(set(vals))
         lines = [l for l in (out.split("\n") if out else []) if l.strip()]
@@ -289,7 +302,11 @@ def run(oc, tier, seed):
     fixed = [("S note W (o | x | - | ~ | < | >) O none G none", "NOTE", [], ["none"]),
              ("S note W (o | x | - | ~ | < | >) G # section", "NOTE", ["#", "section"], []),
              ("S count(note) W (o | x | - | ~ | < | >) G # section", ["count", "NOTE"], ["#", "section"], []),
-             ("S note W (o | x | - | ~ | < | >) G file # section +", "NOTE", ["file", "#", "section", "+"], [])]
+             ("S note W (o | x | - | ~ | < | >) G file # section +", "NOTE", ["file", "#", "section", "+"], []),
+             # value selections ordered by alpha INSIDE groups
+             ("S + W (o | x | - | ~ | < | >) O alpha G file", "PROJECT", ["file"], ["alpha"]),
+             ("S # W (o | x | - | ~ | < | >) O alpha G type @", "AREA", ["type", "@"], ["alpha"]),
+             ("S links W (o | x | - | ~ | < | >) O alpha G file", "LINKS", ["file"], ["alpha"])]
     search = [120]
     for di in range(n_dirs):
         with Z.tmpdir("c09_") as d:
